@@ -37,6 +37,11 @@ def chain(env):
 
 
 def actualcall_routing_rule(prog, run, rid):
+    # ---------------- R12 ---------------------------------------------------
+    # "every parameter ... value": whether two parameter values are the same value is MockNamedValue::equals (shared with C09.R1-R3)
+    from .C09 import integer_equality_rules
+    integer_equality_rules(prog, run, "R12", "R12", "R12")
+
     # ---------------- R11 ---------------------------------------------------
     # MockSupport::actualCall folded over (previous call pending, enabled, tracing, call ignored): the previous call is
     # always retired first (its expectations checked once, the pointer cleared), then the routing decides
@@ -87,6 +92,7 @@ def check(ctx, run):
     run.rule("R6", "end-of-test verdict: unfulfilled is reported iff the last call was fulfilled and calls are left, and the out-of-order check runs AFTER it (on the cleared mock); the plugin checks iff the test has not failed and always clears", floor=6)
     run.rule("R7", "tolerance side: hasInputParameter compares with the expectation's stored value as receiver", floor=2)
     run.rule("R8", "return-value getters (SIBLING): return<T>Value reads get<T>Value of the same T; return<T>ValueOrDefault defaults iff !hasReturnValue(); returnValue checks expectations first and reads the matched expectation", floor=24)
+    run.rule("R12", "parameter values compare by mathematical value: the comparison equals() selects for every ordered pair of integer tags, folded over boundary values and their 2^32/2^64 aliases (shared with C09.R1-R3)", floor=100, exhaustive=True)
     run.rule("R11", "actualCall routing folded over (previous call pending, enabled, tracing, ignored): the previous call is retired first on every route, then disabled -> ignored call, tracing -> trace, ignored name -> ignored call, else a checked call", floor=16, exhaustive=True)
     run.rule("R10", "no stale per-call marks: an expectation dropped from a call's candidate list is clean before it can be a candidate again (reset where it is dropped, or all candidates reset when a call collects them)", floor=2)
     run.rule("R9", "matching-state reset coverage: every field or per-parameter flag set by the per-call marker methods is reset by resetActualCallMatchingState", floor=3)
